@@ -138,6 +138,11 @@ example :
     s.host.count = 0 ∧ s.clients.map (·.p.count) = [0, 0] ∧ s.clients.all (fun c => c.up.isEmpty && c.down.isEmpty) = true := by
   decide
 
+/-- (tie) the uuid maps only ever lose the entry of an entity that is gone — the two delete handlers and the two removal
+detectors are the only places that shrink them, nothing clears or replaces them: a peer that joins again still knows what it
+holds, which is what the duplicate-spawn guard (`C01_rejoin_entity_set`) relies on -/
+theorem C01_maps_kept_tie : Generated.entMapsShrinkOnlyOnRemoval = true := by decide
+
 /-- **joins (whole world, `Slice/World.lean`).** A client that joins afresh ends with exactly one replica of every entity the
 host tracks and of nothing else, however many entities and archetypes the snapshot spans; a client that returns holding
 replicas gets no second replica of a uuid it knows (the duplicate guard) and every uuid of the host (what it keeps beyond
